@@ -67,12 +67,14 @@ def cmp_res(kind, l, r):
     raise ValueError(kind)
 
 
-def bin_family(m, kind_bb, kind_mixed, tier_bb="quick", tier_mixed="quick", budget=300, do_bb=True):
+def bin_family(m, kind_bb, kind_mixed, tier_bb="quick", tier_mixed="quick", budget=300, do_bb=True, do_mixed=True):
     if do_bb:
         harness(f"C06.e1.{m}.byte_byte_eq_num_num", "C06,C09", f"vk_c06_{m}_byte_byte",
                 ind(f"let a: u8 = kani::any();\nlet b: u8 = kani::any();\n"
                     f"assert!({cmp_res(kind_bb, f'{m}::byte_byte(a, b)', f'{m}::num_num(a as f64, b as f64)')});"),
                 tier=tier_bb, budget=budget, desc=f"{m}::byte_byte equals {m}::num_num on the converted arguments, all u8 x u8")
+    if not do_mixed:
+        return
     harness(f"C06.e1.{m}.byte_num_eq_num_num", "C06,C09", f"vk_c06_{m}_byte_num",
             ind(f"let a: u8 = kani::any();\nlet y = anyf();\n"
                 f"assert!({cmp_res(kind_mixed, f'{m}::byte_num(a, y)', f'{m}::num_num(a as f64, y)')});"),
@@ -87,7 +89,8 @@ for m in ("add", "sub"):
     bin_family(m, "f", "f")
 bin_family("set_sign", "f", "f", tier_bb="quick", tier_mixed="thorough", budget=1500)
 bin_family("mul", "f", "f", tier_bb="quick", tier_mixed="thorough", budget=1500)
-bin_family("div", "f", "f", tier_bb="thorough", tier_mixed="thorough", budget=3000)
+# div: the mixed byte/float variants time out under CBMC even at 3000 s (symbolic float division): left undecided
+bin_family("div", "f", "f", tier_bb="thorough", budget=3000, do_mixed=False)
 bin_family("max", "u", "f")
 bin_family("min", "u", "f")
 bin_family("complex", "c", "c")
@@ -115,12 +118,7 @@ harness("C06.e1.or.byte_byte_eq_num_num", "C06,C09", "vk_c06_or_byte_byte",
             "assert!(same(or::byte_byte(a, b) as f64, or::num_num(a as f64, b as f64)));"),
         attrs="    #[kani::unwind(12)]\n", budget=1500, tier="thorough",
         desc="binary-gcd on bytes equals the u128 gcd path of or::num_num (loops unwound 12 with unwinding assertions: complete for u8)")
-harness("C06.e1.or.byte_num_eq_num_num", "C06,C09", "vk_c06_or_byte_num_int",
-        ind("let a: u8 = kani::any();\nlet yi: u16 = kani::any();\nlet y = yi as f64;\n"
-            "assert!(same(or::byte_num(a, y), or::num_num(a as f64, y)));\n"
-            "assert!(same(or::num_byte(y, a), or::num_num(y, a as f64)));"),
-        attrs="    #[kani::unwind(20)]\n", budget=1500, tier="thorough", level="bounded", bound="second operand an integer < 65536",
-        desc="or::byte_num / num_byte equal or::num_num (num_byte swaps its arguments: needs gcd symmetric)")
+# or::byte_num / num_byte against or::num_num (float gcd loop): timed out at 1500 s even for integers < 65536: left undecided
 
 # modulo byte variants (rem_euclid -> fmod): CBMC did not finish in 25 min -> left undecided (libm), see DESIGN.md
 
